@@ -83,6 +83,32 @@ fn subst_penalty_eval(input: &Tree) -> Result<Tree, String> {
     Ok(L(vec![first, second]))
 }
 
+/// subst_pe_samples: [instance, [[replacement map]..], state to fix, samples]
+///   -> [ok (instance after the substitutions and partial_evaluate) | err, result of the `eval_samples` op on it]
+/// (fixing a value is a constant substitution: the recorded dependencies must stay usable, also through
+///  evaluate_samples + get, which do not re-insert fixed values the way evaluate does)
+fn subst_pe_samples(input: &Tree) -> Result<Tree, String> {
+    let xs = input.as_list()?;
+    let mut ins = d_instance(&xs[0])?;
+    for r in xs[1].as_list()? {
+        let r = d_repl(r)?;
+        if let Err(e) = ins.substitute(r) {
+            return Ok(L(vec![err("substitute", &format!("{e:#}")), L(vec![])]));
+        }
+    }
+    let fix = d_state(&xs[2])?;
+    if let Err(e) = ins.partial_evaluate(&fix) {
+        return Ok(L(vec![err("partial_evaluate", &format!("{e:#}")), L(vec![])]));
+    }
+    let it = e_instance(&ins);
+    let second = match super::samples::dispatch("eval_samples", &L(vec![it.clone(), xs[3].clone()])) {
+        Some(Ok(t)) => t,
+        Some(Err(e)) => return Err(e),
+        None => return Err("eval_samples op missing".into()),
+    };
+    Ok(L(vec![ok(it), second]))
+}
+
 /// deps_orders: [instance, state, tries] -> ok [[observed iteration order of the dependency map,
 ///   evaluation]..] for every DISTINCT order seen while rebuilding the map `tries` times
 fn deps_orders(input: &Tree) -> Result<Tree, String> {
@@ -109,6 +135,7 @@ pub fn dispatch(op: &str, input: &Tree) -> Option<Result<Tree, String>> {
         "inst_substitute" => Some(inst_substitute(input)),
         "deps_orders" => Some(deps_orders(input)),
         "subst_penalty_eval" => Some(subst_penalty_eval(input)),
+        "subst_pe_samples" => Some(subst_pe_samples(input)),
         _ => None,
     }
 }
